@@ -112,6 +112,7 @@ Example C04_wf_rejects :
   wf_schema ex_env (SMap SBool SAny None None) = false.
 Proof. vm_compute. split; reflexivity. Qed.
 
+<<<<<<< HEAD
 (* ---------- appended by the C10 work package (Proofs/C10UseNoPanic.v, C10UseTerm.v, C10UseMain.v) ----------
    The theorems above hold under a weaker hypothesis than wf_schema.  wf_schema asks that every object of a
    scope is stored under its own id; no operation reads an object's id, and a scope received as a description
@@ -148,4 +149,51 @@ Example C04_wf_use_weaker :
   let s := SScope [("R", ex_R); ("M", ex_M); ("K", SObject "Other" false [])] "R" in
   wf_schema ex_env s = false /\ wf_use ex_env s = true /\ no_inline_cycle ex_env s = true /\
   defaults_total [] ex_pu 20 ex_env s = true.
+=======
+(* ====================================================================================================
+   Struct-mapped objects (NewStructMappedObjectSchema; model Schema/XOps.v over XSyntax.xschema,
+   conservative over Ops.v: Proofs/XEmbed.v).  `xwf` (Schema/XWf.v) = the contracts of wf_schema at
+   every node, in the environment the node is evaluated in, + every property of a struct-mapped object
+   has a struct field (what buildObjectFieldCache guarantees when the constructor returns; it guarantees
+   nothing about field TYPES: an unconvertible value is the constraint error "Field cannot be set").
+
+   FULL STATEMENT of C04 for struct-mapped objects (NOT proved: the termination half needs the analogue
+   of Proofs/C04Term.v over xschema and a third boolean class for D52):
+     x_struct_total : xwf e s = true -> xno_inline_cycle e s = true -> xdefaults_total K e s = true ->
+       xsubdefaults_total K e s = true -> forall f >= fuel_bound K e s v,
+       xunser/xvalidate/xserialize/xcompat f e s v is neither Panic nor OutOfFuel.
+   PROVED: the panic half, for every fuel and EVERY Go value (C04_struct_never_panics), and that the
+   termination half is false without the D52 hypothesis even for a well-formed schema
+   (C04_struct_subdefault_cycle_refuted).  Termination on struct-mapped schemas is covered by the
+   supervised direct check of the families c04struct / structobj (hang = VIOLATION). *)
+From Verif Require Import Base.XReflect Schema.XSyntax Schema.XOps Schema.XWf Proofs.XStruct Proofs.XTotal Proofs.XExamples.
+
+Theorem C04_struct_never_panics : forall words pu (e : xenv) (s : xschema), xwf e s = true -> forall f v w,
+  xunser words pu f e s v <> Panic w /\ xvalidate words pu f e s v <> Panic w /\
+  xserialize words pu f e s v <> Panic w /\ xcompat words pu f e s v <> Panic w.
+Proof. exact x_struct_never_panics. Qed.
+Print Assumptions C04_struct_never_panics.
+
+(* D52 (known finding): a WELL-FORMED struct-mapped parent whose member refers to itself — sub-object default
+   propagation never finishes, no fuel suffices *)
+Theorem C04_struct_subdefault_cycle_refuted :
+  exists (e : xenv) (s : xschema) (v : gval),
+    xwf e s = true /\ forall fuel, xunser w_words w_pu fuel e s v = OutOfFuel.
+Proof. exact x_struct_subdefault_cycle_refuted_wf. Qed.
+Print Assumptions C04_struct_subdefault_cycle_refuted.
+
+(* the hypothesis is satisfiable by the struct descriptors the harness uses (xstruct_types.go: XNested with a
+   struct member and a pointer member by reference, *XPtrs, a one-of over struct-mapped members, a promoted
+   field behind an embedded pointer) and rejects a property without a field *)
+Example C04_struct_wf_example :
+  xwf (xs_env []) (xs_scope "XNested") = true /\ xwf (xs_env []) (xs_scope "Choice") = true /\
+  xwf (xs_env []) (xs_scope "XPtrs") = true /\ xwf (xs_env []) xs_nofield = false.
+Proof. exact xs_wf. Qed.
+
+Example C04_struct_runs_example :
+  is_ok (xunser w_words w_pu 30 (xs_env []) (xs_scope "XNested") (xs_m [("in", xs_m [("b", vstr "q")]); ("x", vi64 3)])) = true
+  /\ is_err (xvalidate w_words w_pu 30 (xs_env []) (xs_scope "XNested") (xs_inner_v 1 "q")) = true
+  /\ is_err (xserialize w_words w_pu 30 (xs_env []) (xs_scope "XPtrs") (VPtr (TPtr (TStruct "XPtrs")) None)) = true
+  /\ is_ok (xserialize w_words w_pu 30 (xs_env []) (xs_scope "Choice") (VMap t_str_map false [(vstr "o", xs_inner_v 5 "z")])) = true.
+>>>>>>> a9526746a02acb1ae3f613fc50e17d91c0cb43fa
 Proof. vm_compute. repeat split; reflexivity. Qed.
